@@ -231,3 +231,5 @@ func mustParse(w *mc.Worker, text string) (numscript.ParseResult, bool) {
 }
 
 type parsedT = numscript.ParseResult
+
+func numscriptParse(text string) parsedT { return numscript.Parse(text) }
